@@ -66,6 +66,7 @@ def script(ctx, k=4, limit=1, first=(), ops=None, sym_limit=False):
     trace = []
     results = []
     iters = {}
+    slack = {"unread": False}
 
     def finish(kind, t):
         nonlocal got, errored, pending, pending_kind
@@ -104,7 +105,9 @@ def script(ctx, k=4, limit=1, first=(), ops=None, sym_limit=False):
         v = []
         # (feed_eof resumes on purpose: the body is complete, the connection moves on)
         # (read(n) re-derives the marks from n through set_read_chunk_size: use the live value)
-        if size > sr._high_water and not proto._reading_paused and not eof:
+        # (bytes the consumer pushes back with unread_data are not arrivals: the pause rule is re-evaluated
+        #  by the next feed_data)
+        if size > sr._high_water and not proto._reading_paused and not eof and not slack["unread"]:
             raise _V("not-paused-above-high-water", step)
         if pending is not None and not sr._buffer and proto._reading_paused and not eof:
             raise _V("reader-blocked-on-empty-buffer-while-paused", step)
@@ -129,6 +132,8 @@ def script(ctx, k=4, limit=1, first=(), ops=None, sym_limit=False):
                 c = ctx.bytes(f"d{i}", n) if n else b""
                 fed = fed + c
                 sr.feed_data(c)
+                if n:
+                    slack["unread"] = False
             elif op == "begin":
                 if eof or sr.total_bytes and sr._http_chunk_splits is None:
                     continue
@@ -152,6 +157,19 @@ def script(ctx, k=4, limit=1, first=(), ops=None, sym_limit=False):
                     continue
                 sr.set_exception(ValueError("boom"))
                 poisoned = True
+            elif op == "unread1":
+                # (deprecated but public) push the byte returned last back in front of the buffer
+                if pending is not None or errored or poisoned or len(got) == 0:
+                    continue
+                import warnings
+
+                with warnings.catch_warnings():
+                    warnings.simplefilter("ignore")
+                    sr.unread_data(got[len(got) - 1:])
+                got = got[:len(got) - 1]
+                slack["unread"] = True
+                while reported_ends and reported_ends[-1] > len(got):
+                    reported_ends.pop()
             else:
                 if pending is not None:
                     continue
@@ -225,6 +243,10 @@ def script(ctx, k=4, limit=1, first=(), ops=None, sym_limit=False):
             parts.append(len(got) == len(fed))
             if len(got) != len(fed):
                 key = "bytes-lost-at-eof"
+        if not only_readchunk and not errored and any(e not in chunk_ends for e in reported_ends):
+            # mixed with other reads some boundaries go unreported, but one that is reported is the sender's
+            parts.append(False)
+            key = "readchunk-reports-a-boundary-the-sender-did-not-send"
         if only_readchunk and not errored:
             # boundaries reported so far are a prefix of the sender's boundaries
             if reported_ends != chunk_ends[:len(reported_ends)]:
@@ -291,6 +313,12 @@ def jobs(tier):
     out.append(dict(name="limit2-k4", func="script", params=dict(k=4, limit=2,
                                                                   ops=["feed1", "feed2", "eof", "read1", "readany", "readline", "begin", "end", "readchunk"]),
                     limits=lim))
+    # partial read, push-back (unread_data), then chunk-wise reading: positions stay the sender's
+    for pre in (["begin", "feed5", "end", "read2"], ["begin", "feed2", "end", "begin", "feed2", "read1"]):
+        out.append(dict(name="unread-" + "-".join(pre[1:]), func="script",
+                        params=dict(k=len(pre) + (3 if quick else 4), limit=2, first=pre,
+                                    ops=["unread1", "read1", "readchunk", "end", "feed1", "begin", "eof", "iterchunks"]),
+                        limits=lim))
     out.append(dict(name="symlimit-k3", func="script", params=dict(k=3, sym_limit=True), limits=lim))
     # degenerate read_bufsize=0: every byte is above the high-water mark and no size is below the low one
     out.append(dict(name="limit0-k4", func="script", params=dict(k=4, limit=0,
@@ -309,4 +337,4 @@ REQUIRED_OUTCOMES = ("eof", "open", "open:blocked", "wm")
 def bounds(tier):
     return {"script_length": "4 (quick) / 5 (thorough) over 21 operations, all scripts; chunk conversations: prefix begin,feed + 3-4 (quick) / 4-5 more ops over 8 operations",
             "data": "feed_data of 0/1/2/5 fully symbolic bytes", "limit": "1 (all scripts), 2 and 0 (k=4, 9 ops), symbolic 0..3 (k=3); water-mark lemma for every limit in 1..2**40",
-            "reads": "read(1) read(2) read(-1) readany readline readexactly(2) readchunk read_nowait(1) read_nowait(-1); one step of iter_chunks / iter_any / iter_chunked(2) / async-for lines on a persistent iterator"}
+            "unread": "prefixes begin,feed5,end,read(2) / begin,feed2,end,begin,feed2,read(1) + 3 (quick) / 4 ops over {unread_data(last byte returned), read(1), readchunk, iter_chunks, end, feed1, begin, eof}", "reads": "read(1) read(2) read(-1) readany readline readexactly(2) readchunk read_nowait(1) read_nowait(-1); one step of iter_chunks / iter_any / iter_chunked(2) / async-for lines on a persistent iterator"}
